@@ -1296,10 +1296,23 @@ pub fn lane_directory(seed: u64) -> Vec<Scenario> {
                 o.main = false;
                 docs.push(o);
             }
+            // every third: a document in the directory (or two levels down) that cannot be read -
+            // a symbolic link to nowhere, a file that is not text: the run ends with 1
+            let bad = match (oname.len() + n_docs) % 6 {
+                0 => Some(("suite/unreadable.md", "dangling")),
+                1 => Some(("suite/sub/deeper/unreadable.md", "not-utf8")),
+                _ => None,
+            };
+            if let Some((path, how)) = bad {
+                let mut b = doc(path, Format::Md, vec![]);
+                b.raw = Some(String::new());
+                b.unreadable = Some(how.into());
+                docs.push(b);
+            }
             let mut cli = Cli::default();
             cli.as_directory = true;
             let mut sc = Scenario {
-                lane: format!("directory/{}/{}docs", oname, n_docs),
+                lane: format!("directory/{}/{}docs{}", oname, n_docs, bad.map(|b| format!("/{}", b.1)).unwrap_or_default()),
                 tier: Tier::Cli,
                 script_mode: false,
                 docs,
